@@ -4,7 +4,7 @@
    dx = (b - a)/n_segments, so that t_p = a (domain_min) and t_{n_segments+p} = b (domain_max). *)
 From Coq Require Import List Reals QArith.
 From Coquelicot Require Import Coquelicot.
-From FDAV Require Import Base.Num Base.Vec Model.Basis Model.Poly Model.Simpson Lemmas.Vec Lemmas.Basis Lemmas.Legendre Lemmas.Ortho Lemmas.Simpson Gen.BasisForms Lemmas.GenBasisForms Lemmas.Greville.
+From FDAV Require Import Base.Num Base.Vec Model.Basis Model.Poly Model.Simpson Lemmas.Vec Lemmas.Basis Lemmas.Legendre Lemmas.Ortho Lemmas.Simpson Gen.BasisForms Lemmas.GenBasisForms Lemmas.Greville Lemmas.Marsden2.
 Import ListNotations.
 Local Open Scope R_scope.
 
@@ -172,3 +172,9 @@ Theorem C18_code_bsplines_reproduce_identity : forall a b nseg p, a < b -> (0 < 
                            * bspl opsR p (knot opsR a ((b - a) / INR nseg) p) j x) (seq 0 (nseg + p))) = INR p * x.
 Proof. exact code_bs_greville. Qed.
 Print Assumptions C18_code_bsplines_reproduce_identity.
+
+(* the quadratic case of Marsden's identity: sum_j e2(t_{j+1..j+p}) B_{j,p}(x) = C(p,2) x^2 on any strictly increasing knots *)
+Theorem C18_marsden_quadratic_any_knots : forall t, (forall i, t i < t (S i)) -> forall p n lo x,
+  t (lo + p)%nat <= x < t (lo + n)%nat -> (p < n)%nat -> E_ t p lo n x = c2 p * (x * x).
+Proof. exact marsden2. Qed.
+Print Assumptions C18_marsden_quadratic_any_knots.
